@@ -983,11 +983,13 @@ func (w *worker) stepInner(line string) string {
 			return op + " => req=locked"
 		}
 		txids, _ := s.txm.GetTxRequests(hx.Ctx(), s.node.ID(), 100000)
+		// RequestTxs is called also with nothing to request: it must then send nothing (what it
+		// sends, if anything, shows up in this op's tx list)
+		s.node.RequestTxs(hx.Ctx(), txids)
 		if len(txids) > 0 {
 			s.mu.Lock()
 			before := s.taken
 			s.mu.Unlock()
-			s.node.RequestTxs(hx.Ctx(), txids)
 			s.waitFor(settleWait, func() bool {
 				for _, m := range s.recv[before:] {
 					if m.cmd == "getdata" {
